@@ -141,3 +141,63 @@ func (r *Reasm) Push(pk *Packet) ([][]byte, error) {
 
 	return out, nil
 }
+
+// Pack is an independent AV1 RTP encoder. obus are complete OBUs as transmitted (header with the
+// size flag cleared, optional extension byte, body). Every packet takes at most room bytes of OBU
+// data (excluding the aggregation header and length prefixes); useW[k % len(useW)] selects the form
+// of packet k: 0 = W=0 with every element length-prefixed, otherwise W = element count (at most 3
+// elements, the last without length prefix). n sets the N bit of the first packet.
+func Pack(obus [][]byte, room int, useW []int, n bool) [][]byte {
+	if room < 1 {
+		room = 1
+	}
+	if len(useW) == 0 {
+		useW = []int{1}
+	}
+	var out [][]byte
+	oi, off := 0, 0 // current OBU and offset into it
+	for k := 0; oi < len(obus); k++ {
+		counted := useW[k%len(useW)] != 0
+		var els [][]byte
+		z := off > 0
+		y := false
+		left := room
+		for oi < len(obus) && left > 0 && (!counted || len(els) < 3) {
+			rest := obus[oi][off:]
+			if len(rest) <= left {
+				els = append(els, rest)
+				left -= len(rest)
+				oi, off = oi+1, 0
+
+				continue
+			}
+			els = append(els, rest[:left])
+			off += left
+			left = 0
+			y = true
+		}
+		hdr := byte(0)
+		if z {
+			hdr |= 0x80
+		}
+		if y {
+			hdr |= 0x40
+		}
+		if counted {
+			hdr |= byte(len(els)) << 4
+		}
+		if n && k == 0 {
+			hdr |= 8
+		}
+		p := []byte{hdr}
+		for i, el := range els {
+			if !counted || i < len(els)-1 {
+				p = append(p, leb128.Encode(uint64(len(el)))...)
+			}
+			p = append(p, el...)
+		}
+		out = append(out, p)
+	}
+
+	return out
+}
